@@ -7,10 +7,17 @@
 package srvcheck
 
 import (
+	"bytes"
 	"fmt"
+	"io"
+	"net"
+	"net/http"
 	"sort"
 	"strings"
 	"time"
+
+	"github.com/atlassian/gostatsd/pb"
+	"google.golang.org/protobuf/proto"
 
 	"github.com/atlassian/gostatsd"
 	"github.com/atlassian/gostatsd/pkg/statsd"
@@ -36,7 +43,7 @@ type settings struct {
 	parsers     int
 	queue       int
 	namespace   string
-	filter      string // "none", "drop-tags", "drop-host", "drop-metric"
+	filter      string // "none", "drop-tags", "drop-host", "drop-metric", "drop-region-m0"
 	batch       int
 	heartbeat   bool
 }
@@ -85,6 +92,22 @@ func (s settings) identity(i int, tags []string, event bool) (out []string, src 
 				}
 			}
 			all = kept
+		case "drop-region-m0": // metric m0 only: tags region:* go (also a default tag, when the metric carries the same tag)
+			if i == 0 {
+				drop := map[string]bool{}
+				for _, x := range tg {
+					if strings.HasPrefix(x, "region:") {
+						drop[x] = true
+					}
+				}
+				var kept []string
+				for _, x := range all {
+					if !drop[x] {
+						kept = append(kept, x)
+					}
+				}
+				all = kept
+			}
 		case "drop-host": // metric m0 only
 			if i == 0 {
 				src = ""
@@ -115,7 +138,7 @@ func Run(t *rapid.T, prop string) {
 		parsers:     rapid.IntRange(1, 3).Draw(t, "max-parsers"),
 		queue:       rapid.SampledFrom([]int{1, 10, 100}).Draw(t, "max-queue-size"),
 		namespace:   rapid.SampledFrom([]string{"", "", "ns"}).Draw(t, "namespace"),
-		filter:      rapid.SampledFrom([]string{"none", "none", "drop-tags", "drop-host", "drop-metric"}).Draw(t, "filter"),
+		filter:      rapid.SampledFrom([]string{"none", "none", "drop-tags", "drop-host", "drop-metric", "drop-region-m0", "drop-region-m0"}).Draw(t, "filter"),
 		batch:       rapid.SampledFrom([]int{1, 8}).Draw(t, "receive-batch-size"),
 		heartbeat:   rapid.Bool().Draw(t, "heartbeat"),
 	}
@@ -125,6 +148,7 @@ func Run(t *rapid.T, prop string) {
 	cfg := rig.ServerConfig{Settings: map[string]interface{}{}, Tune: func(srv *statsd.Server) {
 		srv.IgnoreHost, srv.DefaultTags, srv.MaxWorkers, srv.MaxParsers, srv.MaxQueueSize = s.ignoreHost, gostatsd.Tags(append([]string(nil), s.defaultTags...)), s.workers, s.parsers, s.queue
 		srv.Namespace, srv.ReceiveBatchSize, srv.HeartbeatEnabled = s.namespace, s.batch, s.heartbeat
+		srv.ExpiryIntervalTimer = time.Hour // a timer stays (idle: no values) in every flush after the one that carried its data
 		srv.DisableInternalEvents = disableInternalEvents
 		if internalStatser {
 			srv.StatserType = gostatsd.StatserInternal
@@ -135,12 +159,24 @@ func Run(t *rapid.T, prop string) {
 	case "drop-tags":
 		cfg.Settings["filters"] = []string{"f"}
 		cfg.Settings["filter"] = map[string]interface{}{"f": map[string]interface{}{"drop-tags": []string{"k:*"}}}
+	case "drop-region-m0":
+		cfg.Settings["filters"] = []string{"f"}
+		cfg.Settings["filter"] = map[string]interface{}{"f": map[string]interface{}{"match-metrics": []string{s.prefix() + "m0"}, "drop-tags": []string{"region:*"}}}
 	case "drop-host":
 		cfg.Settings["filters"] = []string{"f"}
 		cfg.Settings["filter"] = map[string]interface{}{"f": map[string]interface{}{"match-metrics": []string{s.prefix() + "m0"}, "drop-host": true}}
 	case "drop-metric":
 		cfg.Settings["filters"] = []string{"f"}
 		cfg.Settings["filter"] = map[string]interface{}{"f": map[string]interface{}{"match-metrics": []string{s.prefix() + "m1"}, "drop-metric": true}}
+	}
+	ingestAddr := ""
+	if rapid.Bool().Draw(t, "http-ingestion") {
+		if l, err := net.Listen("tcp", "127.0.0.1:0"); err == nil {
+			ingestAddr = l.Addr().String()
+			l.Close()
+			cfg.Settings["http-servers"] = []string{"ingest"}
+			cfg.Settings["http"] = map[string]interface{}{"ingest": map[string]interface{}{"address": ingestAddr, "enable-ingestion": true, "enable-healthcheck": false}}
+		}
 	}
 	if s.provider != "none" {
 		delay := time.Duration(0)
@@ -211,6 +247,73 @@ func Run(t *rapid.T, prop string) {
 		}
 		time.Sleep(time.Duration(rapid.IntRange(0, 30).Draw(t, "pause-ms")) * time.Millisecond)
 	}
+	// series handed over by a forwarder: POST /v2/raw. Names, tags and sources arrive as the forwarder's own stages left
+	// them (no namespace is applied again); the cloud stage and the tag stage of this server still apply.
+	if ingestAddr != "" {
+		for i, n := 0, rapid.IntRange(1, 3).Draw(t, "http-series"); i < n; i++ {
+			name := fmt.Sprintf("h%d", i)
+			tags := rapid.SampledFrom([][]string{nil, {"k:v"}, {"a:b", "region:us"}}).Draw(t, "http-tags")
+			host := rapid.SampledFrom([]string{"", "10.1.2.3", "10.9.9.9", "web7"}).Draw(t, "http-hostname")
+			v := rapid.IntRange(1, 9).Draw(t, "v")
+			msg := &pb.RawMessageV2{}
+			// the stages after ingestion, with the posted source instead of the sender's address
+			esrc := host
+			tg := append([]string(nil), tags...)
+			if s.provider != "none" && esrc != "" {
+				if in := instances[gostatsd.Source(esrc)]; in != nil {
+					tg = append(tg, in.Tags...)
+					esrc = string(in.ID)
+				}
+			}
+			all := append(tg, s.defaultTags...)
+			if s.filter == "drop-tags" {
+				var kept []string
+				for _, x := range all {
+					if !strings.HasPrefix(x, "k:") {
+						kept = append(kept, x)
+					}
+				}
+				all = kept
+			}
+			seen := map[string]bool{}
+			var etags []string
+			for _, x := range all {
+				if !seen[x] {
+					seen[x] = true
+					etags = append(etags, x)
+				}
+			}
+			switch rapid.SampledFrom([]string{"c", "ms", "g", "s"}).Draw(t, "http-type") {
+			case "c":
+				msg.Counters = map[string]*pb.CounterTagV2{name: {TagMap: map[string]*pb.RawCounterV2{"x": {Tags: tags, Hostname: host, Value: int64(v)}}}}
+				want.AddCounter(model.MakeKey(gostatsd.COUNTER, name, etags, esrc), int64(v), 1)
+			case "ms":
+				msg.Timers = map[string]*pb.TimerTagV2{name: {TagMap: map[string]*pb.RawTimerV2{"x": {Tags: tags, Hostname: host, Values: []float64{float64(v)}, SampleCount: 1}}}}
+				want.AddTimer(model.MakeKey(gostatsd.TIMER, name, etags, esrc), []float64{float64(v)}, 1, 1)
+			case "g":
+				msg.Gauges = map[string]*pb.GaugeTagV2{name: {TagMap: map[string]*pb.RawGaugeV2{"x": {Tags: tags, Hostname: host, Value: float64(v)}}}}
+				want.AddGauge(model.MakeKey(gostatsd.GAUGE, name, etags, esrc), float64(v), 1)
+			default:
+				msg.Sets = map[string]*pb.SetTagV2{name: {TagMap: map[string]*pb.RawSetV2{"x": {Tags: tags, Hostname: host, Values: []string{fmt.Sprintf("u%d", v)}}}}}
+				want.AddSet(model.MakeKey(gostatsd.SET, name, etags, esrc), map[string]struct{}{fmt.Sprintf("u%d", v): {}}, 1)
+			}
+			body, _ := proto.Marshal(msg)
+			posted := false
+			for d := time.Now().Add(20 * time.Second); time.Now().Before(d) && !posted; time.Sleep(5 * time.Millisecond) {
+				resp, err := http.Post("http://"+ingestAddr+"/v2/raw", "application/x-protobuf", bytes.NewReader(body))
+				if err == nil {
+					io.Copy(io.Discard, resp.Body)
+					resp.Body.Close()
+					posted = resp.StatusCode == 202
+				}
+			}
+			if !posted {
+				ev.C().Excluded("http-ingestion-not-serving", 1)
+				t.Skip("the ingestion endpoint did not accept the post")
+			}
+			sent = append(sent, fmt.Sprintf("POST /v2/raw %s tags=%q hostname=%q", name, tags, host))
+		}
+	}
 	// events
 	var wantEvents []string
 	nev := rapid.IntRange(0, 3).Draw(t, "events")
@@ -237,17 +340,33 @@ func Run(t *rapid.T, prop string) {
 	}
 	got := srv.Total()
 	for k := range got {
+		if !isOurs(k.Name, s.prefix()) && !strings.HasPrefix(k.Name, s.prefix()+"statsd.") && !strings.HasPrefix(k.Name, "statsd.") && !strings.Contains(k.Name, "heartbeat") {
+			fail("server-aggregate", "the backend was flushed a series nobody sent: %v; sent %q", k, sent)
+		}
 		if !isOurs(k.Name, s.prefix()) {
 			delete(got, k) // internal metrics, heartbeat
 		}
 	}
 	// gauges: several lines of one datagram, the last one wins; the model's SetGaugeLast follows the same order
 	if d := model.Diff(got, want, model.Opts{IgnoreTimestamps: true}); d != "" {
-		if lostOnly(got, want) {
+		httpMissing := false
+		for k := range want {
+			if _, ok := got[k]; !ok && len(k.Name) == 2 && k.Name[0] == 'h' {
+				httpMissing = true // its POST was answered 202: it cannot have been lost on the way
+			}
+		}
+		if !httpMissing && lostOnly(got, want) {
 			ev.C().Excluded("datagram-lost-on-loopback", 1)
 			t.Skip("a datagram did not arrive")
 		}
-		fail("server-aggregate", "what the backend was flushed differs from what the stages should make of the traffic: %s; sent %q", d, sent)
+		time.Sleep(1500 * time.Millisecond)
+		late := srv.Total()
+		lateDiff := model.Diff(late, want, model.Opts{IgnoreTimestamps: true})
+		lk := 0
+		if auto != nil {
+			lk = auto.LookupCount()
+		}
+		fail("server-aggregate", "what the backend was flushed differs from what the stages should make of the traffic: %s; sent %q [debug: lookups=%d; 1.5s later the difference is %q]", d, sent, lk, lateDiff)
 	}
 	// every flush hands the backend one map per worker, in order: within one flush a series is reported by one worker only
 	type at struct {
@@ -269,6 +388,30 @@ func Run(t *rapid.T, prop string) {
 	for a, n := range where {
 		if n > 1 {
 			fail("series-reported-by-two-workers", "series %v was reported by %d workers in one flush (flush %d); sent %q", a.k, n, a.flush, sent)
+		}
+	}
+	// a timer's expiry is an hour here: once reported it is in every later flush, idle or not
+	flushes := srv.Flushes()
+	ticks := len(flushes) / s.workers
+	firstSeen := map[model.Key]int{}
+	present := map[at]bool{}
+	for i, mm := range flushes[:ticks*s.workers] {
+		mm.Timers.Each(func(n, _ string, tm gostatsd.Timer) {
+			if !isOurs(n, s.prefix()) {
+				return
+			}
+			k := model.MakeKey(gostatsd.TIMER, n, tm.Tags, string(tm.Source))
+			if _, ok := firstSeen[k]; !ok {
+				firstSeen[k] = i / s.workers
+			}
+			present[at{i / s.workers, k}] = true
+		})
+	}
+	for k, f := range firstSeen {
+		for tk := f + 1; tk < ticks; tk++ {
+			if !present[at{tk, k}] {
+				fail("timer-gone-before-expiry", "timer %v was reported in flush %d and is missing from flush %d of %d although expiry-interval-timer is 1h; sent %q", k, f, tk, ticks, sent)
+			}
 		}
 	}
 	// events reach the backend with their fields
@@ -334,6 +477,9 @@ func Run(t *rapid.T, prop string) {
 
 // isOurs: the name is one of the generated series m<digit> (under the namespace), not an internal metric or a sentinel.
 func isOurs(name, prefix string) bool {
+	if len(name) == 2 && name[0] == 'h' && name[1] >= '0' && name[1] <= '9' {
+		return true // handed over through HTTP ingestion: no namespace
+	}
 	if !strings.HasPrefix(name, prefix+"m") {
 		return false
 	}
